@@ -429,6 +429,7 @@ func (m *Machine) resetPath() {
 	m.fmtOpaque = 0
 	m.timerRace = m.P.TimerRace
 	m.fixedClock = false
+	m.horizonNs = 0
 	m.preemptOff = false
 	m.clockTick = 0
 	m.aborting = false
